@@ -38,7 +38,7 @@ theorem needs_pending_aux (H : Bytes → Bytes) (s : State) (op : Op) (ap : Appr
   all_goals (injection ha with ha; subst ha; simp only [pending])
   all_goals try (rename_i hget; simp only [alHas, hget]; rfl)
   all_goals try (rename_i hget; simpa using hget)
-  all_goals (rename_i hget; rw [hs1] at hget; simp only [alHas]; simp only at hget; rw [hget]; rfl)
+  all_goals (simp [alHas, *])
 
 /-- Candidate requests are stored under the decoded bytes of the public key string they carry. -/
 def ApplyCanon (s : State) : Prop := ∀ kb pk, alGet s.apply kb = some pk → decodePk pk.1 = some kb
